@@ -112,6 +112,8 @@ partial def pLoop (depth : Nat) (hasSide : Bool) : P LoopSpec := fun ws => do
       | "reduce" => do let (g, ws) ← pOf aggFn ws; stages n ws (.reduce g :: acc)
       | "replay" => do let (l, ws) ← pLoop (depth + 1) hasSide ws; stages n ws (.replay l :: acc)
       | "iterate" => do let (l, ws) ← pLoop (depth + 1) hasSide ws; stages n ws (.iterate l :: acc)
+      | "iteritems" => do let (l, ws) ← pLoop (depth + 1) hasSide ws; stages n ws (.iteritems l :: acc)
+      | "iterboth" => do let (l, ws) ← pLoop (depth + 1) hasSide ws; stages n ws (.iterboth l :: acc)
       | "gbwin" => do
         let (f, ws) ← pOf keyFn ws; let (c, ws) ← pInt ws; let (w, ws) ← pNat ws; let (sl, ws) ← pNat ws
         if w == 0 || sl == 0 then none else stages n ws (.gbwin f c w sl :: acc)
@@ -234,7 +236,11 @@ partial def bodyTags (pre : String) : List BStage → List String
      | .gbwin .. => ["body:gbwin"] | .gbfold .. => ["body:gbfold"] | .joinside .. => ["body:joinside"]
      | .mergeside => ["body:mergeside"]
      | .replay (.mk _ _ _ _ _ b) => [s!"body:replay-in-{pre}"] ++ bodyTags "replay" b
-     | .iterate (.mk _ _ _ _ _ b) => [s!"body:iterate-in-{pre}"] ++ bodyTags "iterate" b
+     | .iterate (.mk _ _ _ _ _ b) => [s!"body:iterate-in-{pre}", "body:inner-iterate-state"] ++ bodyTags "iterate" b
+     | .iteritems (.mk _ _ _ _ _ b) =>
+       [s!"body:iterate-in-{pre}", "body:inner-iterate-items"] ++ bodyTags "iterate" b
+     | .iterboth (.mk _ _ _ _ _ b) =>
+       [s!"body:iterate-in-{pre}", "body:inner-iterate-items+state"] ++ bodyTags "iterate" b
      | _ => []) ++ bodyTags pre ss
 
 /-- distribution tags of the newer generator features -/
